@@ -14,9 +14,9 @@ import (
 // parserFacts: what config.ParseData establishes about the values it puts into config.Config.
 type parserFacts struct {
 	leavesBusy map[*ssa.Alloc]bool
-	c  *Ctx
-	p  *Program
-	fn *ssa.Function
+	c          *Ctx
+	p          *Program
+	fn         *ssa.Function
 	// region: ParseData and the named functions of package config it (transitively) calls - a parser split into helpers
 	// (parseKey, parseAnalog, ...) is analysed as one unit
 	region map[*ssa.Function]bool
